@@ -90,11 +90,12 @@ def csv_cases(rep, pa, cases, rng, tier):
                 w = csv.writer(f, delimiter=delim)
                 for a, l, s, e in rows:
                     w.writerow([amap[a], lmap[l], repr(tm(s)), repr(tm(e))])
-            got_out, got = "ok", None
+            got_out, got, got_anns = "ok", None, None
             try:
                 with contextlib.redirect_stdout(io.StringIO()):
                     c = pa.Continuum.from_csv(str(path), discard_invalid_rows=bool(p["discard"]), delimiter=delim)
                 got = proj_units(c)
+                got_anns = list(c.annotators)
             except ValueError:
                 got_out = "ValueError"
             except Exception as ex:
@@ -103,9 +104,9 @@ def csv_cases(rep, pa, cases, rng, tier):
             want = sorted((amap[u[0]], tm(u[1]), tm(u[2]), lmap[u[3]]) for u in p["units"])
             n += 1
             rep.case(key=json.dumps(["csv", rows, p["discard"], k]))
-            if got_out != p["outcome"] or (got_out == "ok" and (got != want or sorted(set(a for a, *_ in got)) != sorted(amap[a] for a in p["annotators"]))):
+            if got_out != p["outcome"] or (got_out == "ok" and (got != want or got_anns != sorted(amap[a] for a in p["annotators"]))):
                 rep.violation("io.csv_read", {"rows": rows, "discard": p["discard"], "delimiter": delim, "spec_outcome": p["outcome"],
-                                              "code_outcome": got_out, "spec_units": want, "code_units": got,
+                                              "code_outcome": got_out, "spec_units": want, "code_units": got, "code_annotators": got_anns,
                                               "annotator_names": amap, "label_names": lmap})
     # (2) CSV round trip with every string over the codec alphabet as label and as annotator
     from pyannote.core import Segment
@@ -164,6 +165,13 @@ def tier_cases(rep, pa, cases, rng, tier):
                             eaf.add_annotation(tier_names[t], int(s * scale), int(e * scale), marks[m])
                 eaf.to_file(str(path))
             c = pa.Continuum()
+            from pyannote.core import Segment as _Seg
+            pre = []
+            if ci % 2 == 0:
+                # the annotator already holds units (added by hand, or from an earlier file): reading a file adds to them
+                c.add("Ann", _Seg(5000.5, 5001.75), "already there")
+                c.add("Other", _Seg(1.0, 2.0), "other annotator")
+                pre = [("Ann", 5000.5, 5001.75, "already there"), ("Other", 1.0, 2.0, "other annotator")]
             try:
                 if fmt == "textgrid":
                     c.add_textgrid("Ann", str(path), selected_tiers=sel, use_tier_as_annotation=bool(p["useTier"]))
@@ -175,8 +183,8 @@ def tier_cases(rep, pa, cases, rng, tier):
             for f in (path, str(path) + ".pfsx"):
                 if os.path.exists(f):
                     os.unlink(f)
-            want = sorted(("Ann", float(u[0] * scale), float(u[1] * scale), tier_names[u[2][1]] if u[2][0] == "tier" else marks[u[2][1]])
-                          for u in p["units"])
+            want = sorted([("Ann", float(u[0] * scale), float(u[1] * scale), tier_names[u[2][1]] if u[2][0] == "tier" else marks[u[2][1]])
+                           for u in p["units"]] + pre)
             n += 1
             rep.case(key=json.dumps([fmt, p["file"], p["selall"], p["sel"], p["useTier"]]))
             if got != want:
